@@ -391,7 +391,7 @@ def o_c05_amount(tr):
                 continue
             payer = tx["hdr"].get("signers", "").split(",")[0]
             mine = [t for t in b["txs"] if t["hdr"].get("signers", "").split(",")[0] == payer]
-            if len(mine) != 1 or payer in completing or any(g["body"] and g["body"][0] == "ent.params" for g in b["govs"]):
+            if len(mine) != 1 or payer in completing or any("ent.params" in g["body"] for g in b["govs"]):
                 continue
             lb = prev.locked.get(payer, (0, ""))[0]; la = d.locked.get(payer, (0, ""))[0]
             sb = prev.spent.get(payer, (0, ""))[0]; sa = d.spent.get(payer, (0, ""))[0]
@@ -558,6 +558,10 @@ def o_c16(tr):
                 yield {"oracle": m + "-params-valid", "signature": "invalid", "detail": str(q)}
         if not (0 <= d.str_fee <= 10**18):
             yield {"oracle": "str-params-valid", "signature": "invalid", "detail": str(d.str_fee)}
+        # a proposal is all or nothing: when every proposal of the block failed, no parameter may differ from the block before
+        if prev is not None and b["govs"] and all(g["result"] == "err" for g in b["govs"]):
+            if (prev.ent_params, prev.regparams, prev.str_fee) != (d.ent_params, d.regparams, d.str_fee):
+                yield {"oracle": "failed-proposal-changes-nothing", "signature": "params-changed", "detail": "block at %s: %s" % (b["time"], [" ".join(g["body"])[:120] for g in b["govs"]])}
 
 
 def split_msgs(body):
@@ -658,19 +662,29 @@ def o_c13(tr):
             signed = set(tx["hdr"].get("signers", "").split(","))
             if tx["hdr"].get("sig", "ok") != "ok":
                 yield {"oracle": "signature-verified", "signature": tx["hdr"].get("sig"), "detail": "tx %s executed with an invalid signature (%s)" % (tx["n"], tx["hdr"].get("sig"))}
+            leaves = []  # (kind, args, nested?) of every message the transaction executed, at any depth of authz.exec
+
+            def walk(t, nested):
+                k, args, subs = t
+                if k == "authz.exec":
+                    for x in subs:
+                        walk(x, True)
+                else:
+                    leaves.append((k, args, nested))
             for m in split_msgs(tx["body"]):
                 try:
-                    (k, args, subs), _ = parse_msg(m, 0)
+                    walk(parse_msg(m, 0)[0], False)
                 except (KeyError, ValueError, IndexError):
                     continue
+            for k, args, nested in leaves:
                 if k not in SIGNER_POS:
                     continue
                 who = addr_id(args[SIGNER_POS[k]])
-                if who not in signed:
+                if not nested and who not in signed:
                     yield {"oracle": "signed-by-named-signer", "signature": k, "detail": "tx %s executed %s naming %s, signed by %s" % (tx["n"], k, who, sorted(signed))}
                 if k in ("ent.decide", "ent.wl") and who not in ent_signers:
                     yield {"oracle": "entitled", "signature": k, "detail": "tx %s: %s is not an authorised enterprise signer" % (tx["n"], who)}
-                if k == "ent.raise" and who not in set(prev.wl) and not any("ent.wl" in t["kinds"] for t in b["txs"]):
+                if k == "ent.raise" and who not in set(prev.wl) and not any("ent.wl" in t["line"] for t in b["txs"]):
                     yield {"oracle": "entitled", "signature": k, "detail": "tx %s: %s is not whitelisted" % (tx["n"], who)}
                 if k in ("wrk.rec", "wrk.buy", "bcn.rec", "bcn.buy"):
                     reg = prev.reg[k[:3]].get(int(args[0]))
@@ -678,11 +692,12 @@ def o_c13(tr):
                         yield {"oracle": "entitled", "signature": k, "detail": "tx %s: %s is not the owner (%s) of %s" % (tx["n"], who, reg["owner"], args[0])}
                 if k in ("str.topup", "str.rate", "str.cancel", "str.claim"):
                     r, sn = addr_id(args[0]), addr_id(args[1])
-                    if (r, sn) not in prev.streams and not any(kk == "str.create" for t in b["txs"] for kk in t["kinds"]):
+                    if (r, sn) not in prev.streams and not any("str.create" in t["line"] for t in b["txs"]):
                         yield {"oracle": "entitled", "signature": k, "detail": "tx %s: no stream %s/%s" % (tx["n"], r, sn)}
         for gv in b["govs"]:
-            if gv["result"] == "ok" and gv["body"] and gv["body"][0].endswith(".params") and gv["body"][1] != "Mgov":
-                yield {"oracle": "entitled", "signature": "params-authority", "detail": " ".join(gv["body"][:3])}
+            for m in split_msgs(gv["body"]):
+                if gv["result"] == "ok" and m and m[0].endswith(".params") and len(m) > 1 and m[1] != "Mgov":
+                    yield {"oracle": "entitled", "signature": "params-authority", "detail": " ".join(m[:3])}
 
 
 def kvtoks(toks):
@@ -716,12 +731,54 @@ def walks(tr):
     return out
 
 
+def _list_want(d, kind, filt):
+    """the matching entries of a list query in store order, from the digest of the same state (None: not judged)"""
+    f = kvtoks(filt)
+    if kind == "ent.pos":
+        st = f.get("status", "-"); pu = f.get("purchaser", "-")
+        return [str(i) for i in sorted(d.po) if (st in ("-", "0") or str(d.po[i]["status"]) == st) and (pu == "-" or addr_id(d.po[i]["purchaser"]) == addr_id(pu))]
+    if kind in ("wrk.chains", "bcn.beacons"):
+        m = kind[:3]; mo = f.get("moniker", "-"); ow = f.get("owner", "-")
+        return [str(i) for i in sorted(d.reg[m]) if (mo == "-" or d.reg[m][i]["moniker"] == mo) and (ow == "-" or d.reg[m][i]["owner"] == ow)]
+    if kind == "str.streams":
+        return sorted("%s/%s" % k for k in d.streams)
+    if kind == "str.bysender" and filt:
+        return sorted("%s/%s" % k for k in d.streams if k[1] == addr_id(filt[0]))
+    if kind == "str.byreceiver" and filt:
+        return sorted("%s/%s" % k for k in d.streams if k[0] == addr_id(filt[0]))
+    return None
+
+
 def o_c20(tr):
     """list queries are complete, duplicate-free and consistent with point queries (judged against the digest of the same state)"""
     for q in tr.queries:
         r = kvtoks(q["toks"])
         if q["result"] == "ok" and r.get("pm", "0") != "0":
             yield {"oracle": "item=point-query", "signature": q["kind"], "detail": "QUERY %s: %s listed items differ from their point queries" % (q["n"], r["pm"])}
+    # offset pages: the page at offset o with limit L is exactly the matching entries number o .. o+L-1 (id-ordered lists)
+    for q in tr.queries:
+        if q["result"] != "ok" or q["kind"] not in ("ent.pos", "wrk.chains", "bcn.beacons"):
+            continue
+        a = kvtoks(q["args"]); r = kvtoks(q["toks"])
+        if "items" not in r or a.get("key") != "-" or not re.match(r"^\d+$", a.get("off", "")) or not re.match(r"^\d+$", a.get("lim", "")):
+            continue
+        d = digest_at(tr, q["gap"])
+        if d is None:
+            continue
+        filt = tuple(x for x in q["args"] if not x.startswith(("key=", "off=", "lim=", "tot=", "rev=")))
+        want = _list_want(d, q["kind"], filt)
+        if want is None:
+            continue
+        if a.get("rev") == "1":
+            want = want[::-1]
+        off = int(a["off"]); lim = int(a["lim"]) or 100
+        if off + lim >= 1 << 64:
+            continue
+        got = [] if r["items"] == "-" else r["items"].split(",")
+        if got != want[off:off + lim]:
+            yield {"oracle": "pages-partition", "signature": q["kind"] + "/offset-page", "detail": "QUERY %s %s: got %s, matching entries %s" % (q["n"], " ".join(q["args"]), got[:12], want[:20])}
+        elif (a.get("tot") == "1" or int(a["lim"]) == 0) and r.get("total", "").isdigit() and int(r["total"]) != len(want):
+            yield {"oracle": "pages-partition", "signature": q["kind"] + "/total", "detail": "QUERY %s %s: total %s, matching entries %d" % (q["n"], " ".join(q["args"]), r["total"], len(want))}
     for w in walks(tr):
         kind, filt, lim, rev, gap = w["sig"]
         if lim in ("0",) or rev == "1" and False:
@@ -729,20 +786,7 @@ def o_c20(tr):
         d = digest_at(tr, gap)
         if d is None:
             continue
-        f = kvtoks(filt)
-        want = None
-        if kind == "ent.pos":
-            st = f.get("status", "-"); pu = f.get("purchaser", "-")
-            want = [str(i) for i in sorted(d.po) if (st in ("-", "0") or str(d.po[i]["status"]) == st) and (pu == "-" or addr_id(d.po[i]["purchaser"]) == addr_id(pu))]
-        elif kind in ("wrk.chains", "bcn.beacons"):
-            m = kind[:3]; mo = f.get("moniker", "-"); ow = f.get("owner", "-")
-            want = [str(i) for i in sorted(d.reg[m]) if (mo == "-" or d.reg[m][i]["moniker"] == mo) and (ow == "-" or d.reg[m][i]["owner"] == ow)]
-        elif kind == "str.streams":
-            want = sorted("%s/%s" % k for k in d.streams)
-        elif kind == "str.bysender" and filt:
-            want = sorted("%s/%s" % k for k in d.streams if k[1] == addr_id(filt[0]))
-        elif kind == "str.byreceiver" and filt:
-            want = sorted("%s/%s" % k for k in d.streams if k[0] == addr_id(filt[0]))
+        want = _list_want(d, kind, filt)
         if want is None:
             continue
         got = w["items"]
@@ -767,9 +811,11 @@ def o_c17(tr):
         for q in qs:
             if q["kind"] == "ent.supplyof" and q["toks"]:
                 a, den = coin(q["toks"][0])
-                want = bank.get(den, 0) - (locked if den == dn and locked is not None else 0)
-                if den == q["args"][0] and a != want:
-                    yield {"oracle": "supply-of", "signature": "native" if den == dn else "other", "detail": "QUERY %s: %s served %d, bank %d locked %s" % (q["n"], den, a, bank.get(den, 0), locked)}
+                asked = q["args"][0]
+                want = bank.get(asked, 0) - (locked if asked == dn and locked is not None else 0)
+                # the figure served is the one of the denomination asked for, spelled as asked (denominations are case sensitive)
+                if den != asked or a != want:
+                    yield {"oracle": "supply-of", "signature": "native" if asked == dn else "other", "detail": "QUERY %s: asked %s, served %d%s, bank %d locked %s" % (q["n"], asked, a, den, bank.get(asked, 0), locked)}
             if q["kind"] == "ent.totalunlocked" and q["toks"] and locked is not None:
                 a, den = coin(q["toks"][0])
                 if a != bank.get(dn, 0) - locked or a + locked != bank.get(dn, 0):
@@ -858,7 +904,7 @@ def o_invariants(tr):
 
 ORACLES = {
     "C02": [o_c02, o_invariants], "C03": [o_c03], "C04": [o_c04, o_invariants], "C05": [o_c05, o_c05_granter, o_c05_amount], "C07": [o_c07], "C08": [o_c08],
-    "C09": [o_c09], "C10": [o_c10, o_invariants], "C11": [o_c11], "C12": [o_c12], "C14": [o_c14], "C16": [o_c16],
+    "C09": [o_c09], "C10": [o_c10, o_invariants], "C11": [o_c11], "C12": [o_c12], "C14": [o_c14], "C16": [o_c16, o_c03],
     "C13": [o_c13], "C17": [o_c17], "C20": [o_c20], "C15": [o_c15, o_invariants], "C06": [o_c06], "C01": [],
 }
 
